@@ -46,7 +46,7 @@ def main():
             if o.strip():
                 print("does not compile with hooks on:\n", o); return
             for c in checks:
-                rc, o = sh(f"cd /verif && VERIF_RUNS={runs} ./sim/target/sim/sim check {c} quick 2>&1 | grep -E 'VIOLATION|KNOWN|HARNESS|class=|^check' | cut -c1-300")
+                rc, o = sh(f"cd /verif && VERIF_NO_EVIDENCE=1 VERIF_RUNS={runs} ./sim/target/sim/sim check {c} quick 2>&1 | grep -E 'VIOLATION|KNOWN|HARNESS|class=|^check' | cut -c1-300")
                 print(f"[{sid}] {c}: " + o.strip().replace("\n", "\n     "))
         finally:
             sh("git -C /repo checkout -- .")
